@@ -20,13 +20,13 @@ theorem erase_rejects (t : ITier Int) (a b : Int) (m : EraseMode) (sh : Bool) (h
     t.eraseRegion a b m sh = .error .ArgumentError := by
   simp [ITier.eraseRegion, C06.crop_rejects t a b .lax false h, bind, Except.bind]
 
-theorem perase_rejects (t : PTier Int) (hwf : t.WF) (a b : Int) (sh : Bool) (h : b ≤ a) :
+/-- a point-tier region with `b ≤ a` is refused with ArgumentError — by EVERY tier (no well-formedness needed: the
+copy `self.new()` made first cannot fail, both bounds being given) -/
+theorem perase_rejects (t : PTier Int) (a b : Int) (sh : Bool) (h : b ≤ a) :
     t.eraseRegion a b sh = .error .ArgumentError := by
-  unfold PTier.eraseRegion PTier.new
-  simp only [Option.getD_none]
-  obtain ⟨t', h1, _, _, _, _, _⟩ := mkPTier_wf t.name t.ps t.lo t.hi hwf.sorted hwf.stripped hwf.inLo hwf.inHi hwf.span
-  rw [h1]
-  simp [bind, Except.bind, C06.pcrop_rejects t' a b false h]
+  unfold PTier.eraseRegion PTier.new mkPTier
+  simp only [Option.getD_none, Option.toList_some, pyMinList_append_single, pyMaxList_append_single]
+  simp [bind, Except.bind, PTier.crop, h]
 
 /-! ### the clipping step (fix A28): when shrinking, only the part of the region inside the span is cut out -/
 
